@@ -248,7 +248,7 @@ def _cov_start():
         return
     import coverage
     os.makedirs(d, exist_ok=True)
-    os.environ.setdefault('COVERAGE_CORE', 'sysmon')
+    os.environ.setdefault('COVERAGE_CORE', 'ctrace')   # (sysmon loses lines first hit after a save)
     cov = coverage.Coverage(data_file=os.path.join(d, 'cov'), data_suffix=True,
                             include=[os.path.join(REPO, 'src', 'rsatoolbox', '*')])
     cov.start()
